@@ -19,3 +19,4 @@ import I3.Model.Codec
 import I3.Model.Limbs
 import I3.Model.Instances
 import I3.Model.BlakeStream
+import I3.Model.FFInverse
